@@ -257,7 +257,7 @@ func init() {
 			"a point search starts at the point when it lies on a way that is usable in some direction; a building search starts at the boundary points that lie on a way usable along its point order",
 			"points within relative 1e-9 of the limit may be reported or not (float weightings); with the integer harness weighting the limit is exact",
 			"the compact world currently reports every point (all are graph nodes there): extra reported points only need the right distance"},
-		Quick: 400, Thorough: 40000,
+		Quick: 400, Thorough: 6000,
 		CaseCap: 10 * time.Minute, // a compact build takes ~1 s on an idle machine but minutes on a badly oversubscribed one
 		Required: []string{"kind_basic", "kind_basic-mutable", "kind_compact", "distances_compared", "routes_checked", "limit_cut", "limit_exact_boundary",
 			"direction_matters", "decrease_key_needed", "closed_way", "point_twice_on_way", "unusable_way", "searchto_reached", "searchto_beyond_limit",
@@ -664,10 +664,10 @@ func c30Run(c *core.Ctx) {
 				c.Count("searchto_reached")
 				if !c30Close(got, want) {
 					if got < want {
-					k.violate("ExpandSearchTo:distance:too-short", "ExpandSearchTo(%s, limit %v) from %s leaves distance %v, the true distance is %v", dest, limit, oid, got, want)
-				} else {
-					k.violateLong("ExpandSearchTo:distance:too-long", "ExpandSearchTo(%s, limit %v) from %s leaves distance %v, the true distance is %v", dest, limit, oid, got, want)
-				}
+						k.violate("ExpandSearchTo:distance:too-short", "ExpandSearchTo(%s, limit %v) from %s leaves distance %v, the true distance is %v", dest, limit, oid, got, want)
+					} else {
+						k.violateLong("ExpandSearchTo:distance:too-long", "ExpandSearchTo(%s, limit %v) from %s leaves distance %v, the true distance is %v", dest, limit, oid, got, want)
+					}
 					continue
 				}
 				if cost, ok := k.checkChain("ExpandSearchTo:BuildPath", path, isOrigin, dest); ok && !c30Close(cost, got) {
